@@ -25,8 +25,13 @@ type wstep struct {
 }
 
 func (s wstep) String() string {
-	names := []string{"set", "delete", "close", "connerr", "status", "bookmark", "closeafter", "barrier", "sleep", "unknowntype", "errorframe"}
-	return fmt.Sprintf("%s(%d,%d,%d,%d)", names[s.Kind], s.NS, s.NM, s.Lab, s.K)
+	names := []string{"set", "delete", "close", "connerr", "status", "bookmark", "closeafter", "barrier", "sleep", "unknowntype", "errorframe",
+		"drop", "duplicate", "replay", "overflow", "terminating", "nonobject"}
+	name := fmt.Sprint(s.Kind)
+	if s.Kind >= 0 && s.Kind < len(names) {
+		name = names[s.Kind]
+	}
+	return fmt.Sprintf("%s(%d,%d,%d,%d)", name, s.NS, s.NM, s.Lab, s.K)
 }
 
 type watchRun struct {
@@ -73,6 +78,10 @@ func applyStep(srv *fakeapi.Server, s wstep, errs *int) {
 		srv.Inject(fakeapi.Frame{Type: watch.EventType("WEIRD"), Obj: (&Obj{ID: 9998, Kind: KPod, NS: 0, NM: 1, RV: fmt.Sprint(srv.Version() + 1), Spec: SPod}).Go().(runtime.Object)})
 	case 6:
 		srv.CloseStreamsAfter(s.K)
+	case 16:
+		// an ADDED frame whose payload is not an API object at all (an
+		// undecodable body): the session cannot use it; nothing may be lost
+		srv.Inject(fakeapi.Frame{Type: watch.Added, Obj: &runtime.Unknown{}})
 	}
 }
 
@@ -175,6 +184,8 @@ func runC04(c *Ctx) {
 		{{Kind: 4}},
 		{{Kind: 5}},
 		{{Kind: 9}},
+		{{Kind: 16}},
+		{{Kind: 5}, {Kind: 16}, {Kind: 4}},
 		{{Kind: 6, K: 2}},
 		{{Kind: 2}, {Kind: 8, K: 1500}},
 		{{Kind: 2}, {Kind: 7}},
